@@ -13,7 +13,7 @@ import (
 // repository (harness/c15fixture/fix.go.txt -> test/verifjsonfix). Values avoid what encoding/json itself cannot
 // round-trip behind the generated tags: empty-but-non-nil slices and maps under omitempty, ints inside `any`,
 // the field tagged json:"-".
-const c15FixN = 8
+const c15FixN = 9
 
 func c15Fixture(c *c15ctx, kind int, s1, s2 string, i1, i3 int, preDef bool) {
 	r := c.r
@@ -153,6 +153,24 @@ func c15Fixture(c *c15ctx, kind int, s1, s2 string, i1, i3 int, preDef bool) {
 			pre = jfx.AllPublicMutable{Name: "pre", Tags: []string{"p"}, Nick: &n, Age: 9, Note: fp.Some("preNote")}.AsImmutable()
 		}
 		c15Run(c, v, pre, jfx.AllPublicMutable{Name: "o"}.AsImmutable(), any(m), true, true)
+	case 8:
+		c.name = "@fp.Json fixture EmbedsOthers (embedded pointer, named slice, named basic type)"
+		m := jfx.EmbedsOthersMutable{Code: jfx.Code(i1), Name: s1}
+		if i3%2 == 0 {
+			m.Meta = &jfx.Meta{ID: s2, Version: i1}
+		}
+		switch i3 % 3 {
+		case 1:
+			m.Labels = jfx.Labels{s2, s3}
+		case 2:
+			m.Labels = jfx.Labels{}
+		}
+		v := m.AsImmutable()
+		pre := jfx.EmbedsOthers{}
+		if preDef {
+			pre = jfx.EmbedsOthersMutable{Meta: &jfx.Meta{ID: "pre"}, Labels: jfx.Labels{"p"}, Code: 7, Name: "pre"}.AsImmutable()
+		}
+		c15Run(c, v, pre, jfx.EmbedsOthersMutable{Name: "o"}.AsImmutable(), any(m), true, true)
 	default:
 		c.name = "@fp.Json fixture Outer (nested @fp.Json values, slices and maps of them)"
 		m := jfx.OuterMutable{Inner: plain(s1, i1), Wo: withOpt(i3)}
